@@ -150,6 +150,61 @@ func c16Check(c *harness.Ctx) {
 		report("big", nil, &g, aspect, msg)
 	})
 
+	// set 5: one decoder, two messages at once. While the decoder is inside the k-th callback of an outer
+	// body, the callback decodes an inner body with the SAME decoder (what two sessions sharing a plugin's
+	// decoder do when their handlers overlap, and what a nested decode does); both partitions must be
+	// what they are alone.
+	if c.Mine(idx + 1) {
+		var pool [][]byte
+		n := 0
+		for _, seq := range seqs {
+			updGrammar(seq, full, &buf, func(body []byte) {
+				n++
+				if n%977 == 1 && len(pool) < 48 {
+					pool = append(pool, append([]byte{}, body...))
+				}
+			})
+		}
+		inner := newUpdRec()
+		inner.dec = r.rec.dec
+		var innerWant, innerGot []updEv
+		var ip refmodel.UpdatePartition
+		for oi, outer := range pool {
+			for ii, in := range pool {
+				for k := 0; k < 4; k++ {
+					if c.Expired() {
+						return
+					}
+					var inAspect, inMsg string
+					r.rec.reenter = func(i int) {
+						if i != k {
+							return
+						}
+						refmodel.PartitionUpdate(in, &ip)
+						_, pan := inner.run(in, nil)
+						innerWant = updExpected(&ip, innerWant)
+						innerGot = inner.normalised(innerGot)
+						if pan != nil {
+							inAspect, inMsg = "panic-below-64k", fmt.Sprintf("nested Decode panicked: %v", pan)
+						} else {
+							inAspect, inMsg = updDiff(&ip, innerGot, innerWant, false)
+						}
+					}
+					aspect, msg := r.judge(outer)
+					r.rec.reenter = nil
+					c.Eval([]byte(fmt.Sprintf("nested/%d/%d/%d", oi, ii, k)), true)
+					if aspect == "" && inAspect != "" {
+						aspect, msg = inAspect, "inner message: "+inMsg
+					}
+					if aspect != "" {
+						rep := map[string]any{"input": updInputOf(outer, nil, nil), "nested_input": updInputOf(in, nil, nil), "nested_at_call": k, "set": "nested", "detail": r.describe()}
+						c.Violation("partition", "C16:nested:"+aspect, fmt.Sprintf("with a second message decoded by the same decoder inside callback %d: %s", k, msg), rep)
+					}
+				}
+			}
+		}
+	}
+
 	// set 1: all short strings (the largest set, hence last); only the
 	// frame-consistent ones are hashed
 	updShort(c, shortLen, func(b []byte) {
@@ -190,13 +245,41 @@ func init() {
 		Run: c16Check,
 		Replay: func(c *harness.Ctx, raw json.RawMessage) {
 			var rep struct {
-				Input updInput `json:"input"`
+				Input  updInput  `json:"input"`
+				Nested *updInput `json:"nested_input"`
+				At     int       `json:"nested_at_call"`
 			}
 			if err := json.Unmarshal(raw, &rep); err != nil {
 				panic(err)
 			}
 			r := newC16Runner()
 			body := rep.Input.body()
+			if rep.Nested != nil {
+				in := rep.Nested.body()
+				inner := newUpdRec()
+				inner.dec = r.rec.dec
+				var ip refmodel.UpdatePartition
+				inAspect, inMsg := "", ""
+				r.rec.reenter = func(i int) {
+					if i != rep.At {
+						return
+					}
+					refmodel.PartitionUpdate(in, &ip)
+					if _, pan := inner.run(in, nil); pan != nil {
+						inAspect, inMsg = "panic-below-64k", fmt.Sprintf("nested Decode panicked: %v", pan)
+					} else {
+						inAspect, inMsg = updDiff(&ip, inner.normalised(nil), updExpected(&ip, nil), false)
+					}
+				}
+				aspect, msg := r.judge(body)
+				if aspect == "" && inAspect != "" {
+					aspect, msg = inAspect, "inner message: "+inMsg
+				}
+				if aspect != "" {
+					c.Violation("partition", "C16:nested:"+aspect, msg, map[string]any{"input": rep.Input, "nested_input": rep.Nested, "nested_at_call": rep.At, "detail": r.describe()})
+				}
+				return
+			}
 			if aspect, msg := r.judge(body); aspect != "" {
 				c.Violation("partition", "C16:"+aspect, msg, map[string]any{"input": rep.Input, "detail": r.describe()})
 			}
